@@ -67,12 +67,20 @@ def wregOf (j : Json) : Except String WReg := do
     match ← jArr p with
     | [x, y] => pure (← jRat x, ← jRat y)
     | _ => .error "point needs 2 rationals"
+  let ptsOf (jj : Json) : Except String (List (ℚ × ℚ)) := do
+    (← jArr jj).mapM fun p => do
+      match ← jArr p with
+      | [x, y] => pure (← jRat x, ← jRat y)
+      | _ => .error "point needs 2 rationals"
+  let kept ← match jOpt j "pts_kept" with
+    | some k => ptsOf k
+    | none => pure pts
   let angle ← match jOpt j "angle" with
     | some a => do pure (some (← jRat a))
     | none => pure none
   pure { kind := ← kindOf (← fStr j "kind"), sky := ← fBool j "sky", pts := pts,
          sizes := ← fRats j "sizes", angle := angle, text := ← fStr j "text",
-         mt := ← alistOf (← field j "meta"), vis := ← alistOf (← field j "visual") }
+         mt := ← alistOf (← field j "meta"), vis := ← alistOf (← field j "visual"), ptsKept := kept }
 
 def optsOf (j : Json) : Except String Opts := do
   let fmt ← fStr j "fmt"
